@@ -36,6 +36,15 @@ PROPS = {
     "C08": {"suites": ["fat", "ns", "volume"],
             "rule": "every device access of every history checked against the volume bounds (guard bands, device length); volume: every distinct access "
                     "classified into the model's admissible access kinds"},
+    "C09": {"suites": ["fail", "fat"],
+            "rule": "fail: for each of 11 target operations x free-cluster budgets 0..k (volume filled so that the k-th allocation of the operation fails) "
+                    "and root directories filled to capacity minus 0..k slots: the operation, then follow-ups (listing, reads, removals to make room, retry); "
+                    "limit programs (256-unit names, timestamps outside 1980..2107, wrong resource types)"},
+    "C10": {"suites": ["ro"],
+            "rule": "clean and dirty images x FAT12/16/32 x {device not writable, read_only=True}; 23 mutating calls incl. file-object writes, each followed by a "
+                    "full walk (with timestamps) compared with the walk before; device raises on any write; bytes compared after close"},
+    "C11": {"suites": ["marks"],
+            "rule": "sessions mount+history+close with the exact ordered write log; image rebuilt at every prefix; FAT12/16/32 x 1..3 FATs; empty and shuffled histories"},
     "C15": {"suites": ["names"],
             "rule": "legal names: every length (quick: all 13-boundaries +-1 and 1..12, 127..129, 254, 255; thorough: 1..255), spaces, dots, case mixes, "
                     "non-OEM and non-BMP characters, alias-collision families; x code pages x preserve_case; live and after remount"},
@@ -91,6 +100,21 @@ MANIFEST_TEXT = {
                     "and device length watched on the real code.",
             "note": _NOTE + "mkfs is covered by C14's suite, not here.",
             "technique": "Lean 4 arithmetic proof + access-log classification against the model + guard bands"},
+    "C09": {"text": "Theorems: a failed FAT operation leaves table, hint and ownership unchanged and the representation invariant intact after any mix of "
+                    "successes and failures; the translated date encoder raises exactly for years outside 1980..2107. Operation-level no-op/no-wedge decided by "
+                    "failing every allocation point / root-slot count / limit on the real code with follow-up operations.",
+            "note": _NOTE + "Compound helpers of fs.base (writebytes, copy, move, makedirs) are judged at the level of the primitive that failed.",
+            "technique": "Lean 4 invariant proof (all-or-nothing allocation) + systematic fault enumeration on the real code"},
+    "C10": {"text": "Theorem c10_guards (decide on the regenerated site table): every PyFat function containing a device write/truncate site carries the read-only "
+                    "guard, except mkfs. Behaviour (dirty images mount, reads right, no write attempted, bytes identical, mutators raise, later reads unchanged) "
+                    "decided on the real code with a device that raises on any write.",
+            "note": _NOTE + "Gen.Sites is an AST extraction (decorators, lexical lock/seek context); dynamic dispatch is not analysed.",
+            "technique": "Lean 4 decide over extracted guard/site tables + read-only behavioural oracle"},
+    "C11": {"text": "Theorem c11_bracket: for FAT12/16/32, any number of FATs, any session body, after every write of the session protocol the image is marked or "
+                    "only boot-sector copies remain; final image unmarked; translated flag arithmetic sets/clears exactly the mark bit for every value. "
+                    "Real sessions: exact write log, image rebuilt at every prefix, independent mark test.",
+            "note": _NOTE + "Write-call granularity (torn writes are C12's subject). The protocol model is tied to the code by the prefix oracle, not by a trace proof.",
+            "technique": "Lean 4 proof over the write-order protocol + translated mask arithmetic; prefix reconstruction of real write logs"},
     "C15": {"text": "Theorems: long-name round trip for every length; created entry found and earlier entries unchanged (scan∘serialise = id); alias conform, fresh. "
                     "Naming decisions of create/makedir compared with Model.Names.newName; real create/exists/listdir/remount oracle over legal names.",
             "note": _NOTE + "CharEnv (upper/encode/decode/isspace) is supplied by CPython per name. Known findings D2 (lead byte 0xE5), D26 (preserve_case=False lookup).",
